@@ -90,6 +90,8 @@ def run_batch(args):
             continue
         out["runs"].append({"run_seed": run_seed, "ops": len(plan["ops"]), "judged": info["judged"],
                             "precondition_failed": info["precondition_failed"], "verdict": v["class"] if v else None,
+                            "hist_digest": info.get("hist_digest"), "ref_digest": canon.digest("".join(info.get("ref_digests", []))),
+                            "fired_at": [op["fault"].get("ordinal") for op in plan["ops"] if op.get("fault")],
                             "wall": round(time.time() - t0, 3)})
         out["schedules"].append(canon.digest(json.dumps([[o["kind"], o.get("cls"), o.get("via"), o.get("session"),
                                                           bool(o.get("fault"))] for o in plan["ops"]])))
